@@ -249,7 +249,7 @@ func forceGaps(toks []smltext.Tok) []smltext.Tok {
 }
 
 func runC08(c *ctx) {
-	c.Rule = "one token sequence, two renderings. Sequences: valid messages (1-3 per text, all literal forms), valid messages with one token deleted/duplicated/replaced (always-separated tokens), valid messages in which one value is replaced in place by a literal of another kind or spelling, token soups from the SML vocabulary. Layout move: every gap becomes any non-empty mix of space/tab/LF/CRLF (optional gaps may appear/disappear only where the harness's own rule says the two tokens cannot merge), // comments with 45 bodies (punctuation, several scripts, every kind of final byte incl. ...0x85, ...0xA0, VT, FF, NBSP, U+2028, quotes) appended to any line, with or without a final line break; now and then one gap of more than 65536 blanks or line breaks. Case move: S/F, W, [W], direction, type names, T/F, 0X/0B/0O, hex digits, exponent E. Oracle: identical messages (all observers), same number of errors and warnings, same texts (case-insensitively for case moves), and each diagnostic's position must be the position of the same token (same offset inside it) or the end of input in the other rendering. non-trivial = the renderings differ and contain a comment or >= 4 tokens; distinct by the pair of texts Also (rounds 5-8): one gap in 300 grows to 65530..131073 blanks or line breaks; eight hand-written multi-diagnostic sequences under 150/1500 layout pairs; wait-bit and direction keywords glued to '<', '.' or a comment."
+	c.Rule = "one token sequence, two renderings. Sequences: valid messages (1-3 per text, all literal forms), valid messages with one token deleted/duplicated/replaced (always-separated tokens), valid messages in which one value is replaced in place by a literal of another kind or spelling, token soups from the SML vocabulary. Layout move: every gap becomes any non-empty mix of space/tab/LF/CRLF (optional gaps may appear/disappear only where the harness's own rule says the two tokens cannot merge), // comments with 45 bodies (punctuation, several scripts, every kind of final byte incl. ...0x85, ...0xA0, VT, FF, NBSP, U+2028, quotes) appended to any line, with or without a final line break; now and then one gap of more than 65536 blanks or line breaks. Case move: S/F, W, [W], direction, type names, T/F, 0X/0B/0O, hex digits, exponent E. Oracle: identical messages (all observers), same number of errors and warnings, same texts (case-insensitively for case moves), and each diagnostic's position must be the position of the same token (same offset inside it) or the end of input in the other rendering. non-trivial = the renderings differ and contain a comment or >= 4 tokens; distinct by the pair of texts Also (rounds 5-8): one gap in 300 grows to 65530..131073 blanks or line breaks; eight hand-written multi-diagnostic sequences under 150/1500 layout pairs; wait-bit and direction keywords glued to '<', '.' or a comment. Also (round 9): sequences with a string literal that lacks its closing quote, kept last on its line in both renderings, with blanks or a quote-free comment behind it."
 	c.Assume = []string{"the renderer's (line, column) convention: line = 1 + number of LF before, column = 1 + characters since the last LF", "optional gaps are only used inside valid messages, where the harness's GapRequired rule says the neighbours cannot merge", "comment bodies contain a double quote only when every token has balanced quotes"}
 	var statMu = make(chan struct{}, 1)
 	agg := map[string]int{}
